@@ -28,6 +28,8 @@ func runC13(c *Ctx) {
 	// an unsynchronised write to a package-level map from the query path is not a recoverable panic: the runtime aborts the process
 	c.importRules(runC14, "C14", map[string]string{"globals": "globals"})
 	c13TypeAssert(c)
+	// a cache hit must carry THIS query's ID and question
+	c.importRules(runC12, "C12", map[string]string{"hit-reply": "cache-hit-reply"})
 }
 
 // c13QuestionAccess: the database handler never indexes the question section directly.
